@@ -50,6 +50,8 @@ func main() {
 	maint := fl.Bool("maint", false, "maintenance goroutine (stress)")
 	closeMid := fl.Bool("closemid", false, "Close races with the workers (stress)")
 	bg := fl.Bool("bg", false, "background sync/compaction workers (stress)")
+	shard := fl.Int("shard", 0, "lock: run schedules j with j % workers == shard")
+	open2 := fl.Bool("open2", false, "competing Open calls while the database is open (C13)")
 	in := fl.String("in", "", "program file (ndjson) to replay instead of random programs")
 	fl.Parse(os.Args[2:])
 	t0 := time.Now()
@@ -85,7 +87,7 @@ func main() {
 				cfg.Strict = *strict
 				p = h.GenProgram(rng, fmt.Sprintf("%s-%d-%d", *mode, *seed, i), cfg, h.GenOpts{
 					Keys: keys, Ops: *nops, BigVals: true, Compact: true, Reopen: !*noReopen, Sync: true, Reads: true,
-					CrashAt: *epochs, Close: !*noReopen && rng.Intn(2) == 0, Inject: *inject, Backup: *backup, Scans: *scans})
+					CrashAt: *epochs, Close: !*noReopen && rng.Intn(2) == 0, Inject: *inject, Backup: *backup, Scans: *scans, Open2: *open2})
 			}
 			rs := *seed + int64(i)
 			if *rseed != 0 {
@@ -140,7 +142,7 @@ func main() {
 			cfg.MaxSeg = []uint32{2048, 8192, 65536}[rng.Intn(3)]
 			p := h.GenProgram(rng, fmt.Sprintf("seq-%s-%d-%d", *fsname, *seed, i), cfg, h.GenOpts{
 				Keys: keys, Ops: *nops, BigVals: rng.Intn(3) == 0, Compact: true, Reopen: true, Sync: true, Reads: true, Close: false, Churn: true,
-				Inject: *inject, Backup: *backup, Scans: *scans, MoreReopen: *alt})
+				Inject: *inject, Backup: *backup, Scans: *scans, MoreReopen: *alt, Open2: *open2})
 			var r *h.Runner
 			rp := h.RunParams{Mode: "seq", Seed: *seed + int64(i), Probe: len(keys) > 16, FullEvery: 25, Alt: *alt}
 			if *fsname == "crashfs" {
@@ -199,6 +201,45 @@ func main() {
 			}
 			if i < 1 {
 				samples = append(samples, h.Ev{"id": o.ID, "workers": o.Workers, "ops_each": o.OpsEach, "keys": o.Keys, "maint": o.Maint, "closemid": o.CloseMid, "bg": o.BG})
+			}
+		}
+		if err := rec.Close(); err != nil {
+			fatal(err)
+		}
+		tot["events"] = rec.Events
+		tot["recordings"] = rec.Recs
+		writeStats(*stats, tot, samples, t0)
+	case "lock":
+		// every interleaving of the lock system calls of a few processes (C13), on a real directory
+		rec, err := h.NewRec(*out)
+		if err != nil {
+			fatal(err)
+		}
+		rng := rand.New(rand.NewSource(*seed))
+		scen := [][]h.LockScript{
+			{{"open", "close"}, {"open"}, {"open"}},
+			{{"open", "die"}, {"open"}},
+			{{"open", "close", "open"}, {"open", "close"}},
+			{{"open", "die"}, {"open", "close"}, {"open"}},
+			{{"open", "close"}, {"open", "die"}, {"open"}},
+		}
+		if *nkeys > 0 && *nkeys < len(scen) {
+			scen = scen[:*nkeys]
+		}
+		x := &h.LockExplorer{R: rec, Base: *dir}
+		tot := map[string]int{}
+		var samples []interface{}
+		for si, sc := range scen {
+			scheds := h.Schedules(sc, *n, rng.Intn)
+			for j, sd := range scheds {
+				if j%*workers != *shard {
+					continue
+				}
+				x.Run(fmt.Sprintf("lock-s%d-%d", si, j), sc, sd)
+				tot["schedules"]++
+			}
+			if si < 1 {
+				samples = append(samples, h.Ev{"scripts": sc, "schedule": scheds[0]})
 			}
 		}
 		if err := rec.Close(); err != nil {
